@@ -1,4 +1,5 @@
 """Shared by C04, C05, C06: TLC runs of specs/Resume.tla and the kill / tamper drivers."""
+import os
 import vlib
 
 CUR = dict(MarkBeforeWrite=False, FlushInPlace=False, TrustSidecarWithoutFile=False)
@@ -47,7 +48,15 @@ def negative_controls(which):
 
 def kill_runs(tier, seed):
     sample, shards, budget = (7, 8, '110s') if tier == "quick" else (0, 14, '25m')
-    args = ['resume-kill', '-seed', str(seed), '-sample', str(sample), '-budget', budget]
+    import e2e_common
+    work = vlib.scratch("killtrace-")
+    tp = os.path.join(work, "children")
+    args = ['resume-kill', '-seed', str(seed), '-sample', str(sample), '-budget', budget, '-trace-out', tp]
     if tier == "thorough":
         args.append('-chains')
-    return vlib.run_vh_sharded(args, shards, timeout=3000)
+    res = vlib.run_vh_sharded(args, shards, timeout=3000)
+    # the receiver processes' own hook traces (cut short by the kills), validated with TLC against
+    # SessionTrace.tla: C05.mark_before_write, C05.write_unknown_file, C04.flush_order, C02.finalize_*
+    lines = e2e_common.collect(tp)
+    res['trace_rules'], res['trace_stats'] = e2e_common.validate(lines, work, "children") if lines else ([], None)
+    return res
